@@ -486,13 +486,20 @@ def run_case(scratch: str, case: Dict[str, Any], chooser_factory: Callable[[S.Sc
                                 "dangling": b"v99-0badf00d.metadata.json"}[dmg])
             store.history.clear()
         shared = t0 if case.get("topology", "separate") == "shared" else None
+        # topology "forked": the handle `t0` was opened by a parent process which then fork()ed one worker per actor; every
+        # actor goes on using the handle it INHERITED -- an image of the parent's handle at the moment of the fork
+        # (harness/lib/forkimage.py): same attribute values, separate objects, only the store and the scheduler in common
+        forked = case.get("topology") == "forked"
+        if forked:
+            from . import forkimage
         ops = case["ops"]
         for i, op in enumerate(ops):
             op = dict(op)
             if op["kind"] == "delete_snapshot":
                 order = res.initial["log_order"]
                 op["id"] = {"old": order[0], "current": res.initial["current"]}.get(op.get("which"), op.get("id"))
-            a = sc.spawn(f"A{i}", make_actor(root, op, shared, op.get("style", "with")))
+            handle = forkimage.fork_image(t0, [store, sc]) if forked else shared
+            a = sc.spawn(f"A{i}", make_actor(root, op, handle, op.get("style", "with")))
             if inject and a.name in inject:
                 a.inject = inject[a.name]
         nsteps = [0]
